@@ -1,6 +1,7 @@
 """C01 — untrusted font data is rejected with an error, never a crash (clauses a, b, c, d, f)."""
 import arith
 import indexing
+import overflow
 import loops
 import panics
 import recursion
@@ -33,6 +34,7 @@ def check(run, fx, tier, floors=True):
     arith.rule_div(run, fx, "C01-d", floors)
     loops.rule_loops(run, fx, "C01-f", floors)
     indexing.rule_index(run, fx, "C01-g", floors)
+    overflow.rule_overflow(run, fx, "C01-e", floors)
 
 
 def rule_panics(run, fx, rule, select, floors, floor_n=200):
